@@ -107,6 +107,7 @@ def generate(seed, prop):
     world = {"kind": kind, "grid": grid, "azimuths": azimuths, "curves": curves,
              # (plots are kept at ordinary magnitudes: the contour plot's colour-bar code builds one tick per
              #  5 amplitude units, which is a resource question, not a property of C20)
+             "ctor": rng.choice(["init", "init", "from_curves"]),
              "amp_scale": rng.choice([1.0] * 8 + ([1e-9, 1e9, 2.0 ** -20, 3.7] if prop != "C20" else [0.25, 3.7, 2.0, 1.0])),
              "meta": {"file name(s)": ["a.mseed"], "trim": [0.5, 10.25],
                       "note": "sim", "deployed degrees from north": 12.5,
@@ -196,7 +197,7 @@ def draw_op(rng, name, f, kind, curves, azimuths, fault_rate=0.0):
         return {"op": name, "range": draw_range(rng, f), "rnum": rng.choice(["float", "float", "np", "int"]),
                 "rtype": rng.choice(["tuple", "tuple", "list"]), "kwargs": draw_kwargs(rng)}
     if name == "fdwra":
-        return {"op": name, "n": rng.choice([0.5, 1.0, 1.5, 2.0, 2.0, 2.5, 3.0]),
+        return {"op": name, "n": rng.choice([0.5, 1.0, 1.5, 2.0, 2, 2.5, 3.0, 3, 1]),
                 "max_iterations": rng.choice([1, 1, 2, 3, 5, 50, 50]),
                 "dfn": rng.choice(DISTS), "dmc": rng.choice(DISTS),
                 "range": draw_range(rng, f) if rng.random() < 0.6 else [None, None],
@@ -281,8 +282,12 @@ def build_world(world):
     st.objs = {}
     k = st.kind
     if k in ("traditional", "multi"):
-        st.objs["trad"] = H.HvsrTraditional(st.f, st.amps[0],
-                                            meta={**st.meta0, "processing_method": "traditional"})
+        if world.get("ctor") == "from_curves":      # the other public way to build a traditional result
+            st.objs["trad"] = H.HvsrTraditional.from_hvsr_curves(
+                [H.HvsrCurve(st.f, a) for a in st.amps[0]], meta={**st.meta0, "processing_method": "traditional"})
+        else:
+            st.objs["trad"] = H.HvsrTraditional(st.f, st.amps[0],
+                                                meta={**st.meta0, "processing_method": "traditional"})
     if k in ("azimuthal", "multi"):
         hs = [H.HvsrTraditional(st.f, a) for a in st.amps]
         st.src_members = hs            # the caller keeps the objects it built the container from
